@@ -27,14 +27,14 @@ ENCODED = ["twisted.protocols.ftp:toSegments", "twisted.protocols.ftp:FTPAnonymo
            "twisted.protocols.ftp:FTPShell.removeDirectory", "twisted.protocols.ftp:FTPShell.removeFile",
            "twisted.protocols.ftp:FTPShell.rename", "twisted.protocols.ftp:FTPAnonymousShell.access",
            "twisted.python.filepath:AbstractFilePath.descendant", "twisted.python.filepath:FilePath.child"]
-BOUNDS = {"quick": {"n": 5, "c": 2, "s": 5}, "thorough": {"n": 8, "c": 3, "s": 7}}
+BOUNDS = {"quick": {"n": 5, "c": 1, "s": 4}, "thorough": {"n": 7, "c": 2, "s": 6}}
 B = {}
 BOUNDS_TEXT = ("root /r/ab (sibling /r/abc in mind); inductive step: working directory of <= 2 arbitrary *valid* "
                "segments of <= c characters each (any value toSegments can have produced) and a path argument of "
                "<= n arbitrary code points; sessions: CWD p1 then one of CWD/MKD/RMD/DELE/RNFR+RNTO with p2, "
                "len(p1) + len(p2) <= s, from the initial working directory")
 OUTSIDE = ["symbolic links (excluded by the property) and any real filesystem: os / os.path calls made by FTPShell "
-           "and FilePath are recorded by a fake (stat says 'directory' or 'regular file' by a symbolic flag, nothing "
+           "and FilePath are recorded by a fake (stat says 'directory', for DELE 'regular file'; nothing "
            "raises OSError)",
            "the command line parser (FTP.lineReceived/processCommand splitting the verb from the argument) and the "
            "data-connection commands LIST/NLST/RETR/STOR/APPE/SIZE/MDTM (they obtain their path through the same "
@@ -68,7 +68,8 @@ def _valid(segs):
 
 def segments(cwd: List[str], path: str) -> bool:
     """
-    pre: len(cwd) <= 2 and all(len(s) <= B['c'] for s in cwd) and len(path) <= B['n']
+    pre: len(cwd) <= 2 and all(len(s) <= B['c'] for s in cwd)
+    pre: len(path) <= (B['n'] if len(cwd) == 0 else B['n'] - 1)
     pre: _valid(cwd)
     post: _
     """
@@ -160,13 +161,15 @@ def _run(d):
     return "ok"
 
 
-def session(p1: str, p2: str, op: int, isdir: bool) -> bool:
+def session(p1: str, p2: str, op: int) -> bool:
     """
     pre: len(p1) + len(p2) <= B['s'] and 0 <= op <= 5
     post: _
     """
     log = []
-    fos = _FakeOS(log, isdir)
+    # stat answers "directory" except for DELE (which refuses directories): every operation goes as
+    # far into the filesystem layer as it can
+    fos = _FakeOS(log, op != 3)
     saved = (_ftp.os, _fp.os, _fp.stat, _fp.listdir, _fp.islink)
     _ftp.os = fos
     _fp.os, _fp.stat, _fp.listdir, _fp.islink = fos, fos.stat, fos.listdir, fos.islink
@@ -205,13 +208,29 @@ def session(p1: str, p2: str, op: int, isdir: bool) -> bool:
     return r2 != "ok" or len(log) > 0
 
 
+_SHAPES = [(), (1,), (2,), (1, 1), (1, 2), (2, 1), (2, 2), (3,), (3, 1), (1, 3)]
+
+
+def _shape_pre(shape):
+    return ["len(cwd) == %d" % len(shape)] + ["len(cwd[%d]) == %d" % (i, k) for i, k in enumerate(shape)]
+
+
+_PCLS = ["%s == '/'", "%s == '.'", "%s < '.'", "%s > '/'"]
+
+
 def _seg_shards(tier):
     c = BOUNDS[tier]["c"]
-    n = BOUNDS[tier]["n"]
-    out = [("len(path) <= %d" % (n - 2),)]
-    for k in (n - 1, n):
-        out += [("len(path) == %d" % k, "len(cwd) == 0"), ("len(path) == %d" % k, "len(cwd) == 1")]
-        out += [("len(path) == %d" % k, "len(cwd) == 2", "len(cwd[0]) == %d" % i) for i in range(1, c + 1)]
+    out = []
+    for shape in _SHAPES:
+        if any(k > c for k in shape):
+            continue
+        n = BOUNDS[tier]["n"] if not shape else BOUNDS[tier]["n"] - 1
+        out.append(tuple(["len(path) <= %d" % (n - 2)] + _shape_pre(shape)))
+        out.append(tuple(["len(path) == %d" % (n - 1)] + _shape_pre(shape)))
+        if tier == "quick":
+            out.append(tuple(["len(path) == %d" % n] + _shape_pre(shape)))
+        else:
+            out += [tuple(["len(path) == %d" % n, cl % "path[0]"] + _shape_pre(shape)) for cl in _PCLS]
     return out
 
 
@@ -233,8 +252,8 @@ VECTORS = {
     "segments": [([], "a"), ([], ".."), (["a"], ".."), (["a", "b"], "../../.."), (["a"], "/"), ([], "a\x00b"),
                  (["x"], "../../abc"), ([], "/../abc"), (["a"], "b//c/./d"), ([], ""), (["a"], "..."), ([], "a\\..\\b")],
     "anonymous": [([], "a/b"), (["a"], "../.."), ([], "..")],
-    "session": [("a", "b", 1, True), ("..", "x", 3, False), ("a/b", "../../..", 0, True), ("/", "../abc", 2, True),
-                ("a", "/b", 4, False), ("a", "..", 5, True), ("\x00", "a", 1, True), ("a", "", 0, True)],
+    "session": [("a", "b", 1), ("..", "x", 3), ("a/b", "../../..", 0), ("/", "../abc", 2),
+                ("a", "/b", 4), ("a", "..", 5), ("\x00", "a", 1), ("a", "", 0)],
 }
 
 
